@@ -59,6 +59,11 @@ def cases(draw, tier):
     tree = g.op(r, c, depth)
     if r == c and g.integer(1, 4) == 1:  # a base operator carrying a (true) declaration
         tree = g.k_ann(r, r, 0)
+    elif g.integer(1, 6) == 1:
+        # the operator is itself a slice (python slices on both axes) of a larger one: nested slicing A[s0, s1][t0, t1]
+        R, C = r + g.integer(0, 3), c + g.integer(0, 3)
+        g2 = gen.TreeGen(draw, avoid=AVOID | {"index_array"})
+        tree = {"k": "slice", "ch": [g.op(R, C, max(depth - 1, 0))], "s0": g2.index_for(r, R), "s1": g2.index_for(c, C)}
     form = g.pick(["i", "ij", "is", "sj", "s", "ss", "ss", "ll"])
     uniq = "dup_index" in AVOID
     idx = {"form": form}
@@ -87,7 +92,7 @@ def cases(draw, tier):
             if not uniq or all(len({p % n for p in sh["ix"]}) == len(sh["ix"]) for n in (r, c)):
                 idx["a"], idx["b"], idx["shared"] = sh, {"ix": list(sh["ix"])}, True
     if form == "ll":
-        m = g.integer(1, 4)
+        m = g.integer(1, 4) if g.integer(1, 6) > 1 else g.pick([31, 32, 33, 45, 70])  # long lists too
         idx["a"] = {"li": [g.integer(-r, r - 1) for _ in range(m)]}
         idx["b"] = {"li": [g.integer(-c, c - 1) for _ in range(m)]}
     case = {"tree": tree, "idx": idx, "row": g.integer(0, 7)}
